@@ -1,5 +1,6 @@
 (** C01/Props.v — property theorems only.  Each is closed by [exact] of a lemma of the proof files. *)
-From EV Require Import Base.Reader Base.ReaderFacts C01.Model C01.LexModel C01.Proofs C01.LexProofs.
+From Coq Require Import ZArith.
+From EV Require Import Base.Reader Base.ReaderFacts C01.Model C01.LexModel C01.LuaLexer C01.Pump C01.Proofs C01.LexProofs C01.LuaLexerProofs C01.PumpProofs C01.MainProofs.
 Local Open Scope N_scope.
 
 (** (d) LuaTreeBuilder::build + LuaGreenNodeBuilder (after the repair of [finish]):
@@ -20,16 +21,113 @@ Theorem builder_yield_orig_refuted : exists evs t, run_orig evs = Some t /\ leav
 Proof. exact Proofs.builder_yield_orig_refuted. Qed.
 
 (** (a)+(b) the tokenize loop over the (repaired) Reader, for EVERY lexer step that obeys the step contract
-    (forget the previous token first, then move >= 1 character unless the reader is exhausted, report TkEof
-    only when exhausted): the loop ends by exhaustion, the emitted ranges tile [0, |text|) in order and
-    their slices concatenate to the text. *)
-Theorem lex_tiles : forall (S : Type) (step : S -> reader -> tkind * S * reader) (Inv : S -> reader -> Prop),
-  step_contract S step Inv ->
+    (whenever the reader is not exhausted: forget the previous token first, then move >= 1 character, do not
+    report TkEof, and report a kind satisfying [Pk]): the loop ends by exhaustion, the emitted ranges tile [0, |text|) in order and their slices
+    concatenate to the text. *)
+Theorem lex_tiles : forall (S : Type) (step : S -> reader -> tkind * S * reader) (Inv : S -> reader -> Prop) (Pk : tkind -> Prop),
+  step_contract S step Inv Pk ->
   forall (t : text) (normal : bool) (st0 : S),
-    (forall r cs, moved (reader_new t) r cs -> is_eof r = false -> Inv st0 r) ->
+    (forall r cs, moved (reader_new t) r cs -> is_eof r = false -> Inv st0 r) -> Pk TK_TkShebang ->
     let '(toks, r', exhausted) := tokenize S step normal st0 t in
-    exhausted = true /\ tiles toks 0 (bytes t) /\ concat_slices t toks = Some t.
+    exhausted = true /\ tiles toks 0 (bytes t) /\ concat_slices t toks = Some t /\ Forall (fun x => Pk (fst x)) toks.
 Proof. exact LexProofs.lex_tiles. Qed.
+
+(** the transcription of lua_lexer.rs satisfies the step contract — for EVERY feature set (language level +
+    non-standard symbols) and every classification of non-ASCII characters as alphabetic/alphanumeric — with the
+    invariant "the lexer state is Normal whenever the reader is not exhausted", and only reports kinds the parser
+    does not drop *)
+Theorem lua_lexer_contract : forall (feats : list N) (uni_alpha uni_alnum : cp -> bool),
+  step_contract lstate (lua_step feats uni_alpha uni_alnum) lua_inv alive_kind.
+Proof. exact LuaLexerProofs.lua_lexer_contract. Qed.
+
+(** hence its token list tiles every text (NUL, BOM and unterminated strings/comments included), spells it, and
+    contains no token of a kind that [bump] would drop *)
+Theorem lua_lex_tiles : forall (feats : list N) (uni_alpha uni_alnum : cp -> bool) (t : text),
+  let toks := lua_tokenize feats uni_alpha uni_alnum t in
+  tiles toks 0 (bytes t) /\ concat_slices t toks = Some t /\ Forall (fun x => dead_kind (fst x) = false) toks.
+Proof. exact LuaLexerProofs.lua_lex_tiles. Qed.
+
+(** (c) the token pump + marker API as a state machine, for EVERY sequence of client operations (mark / set_kind /
+    complete / undo / precede / push_node_end / init / bump / set_current_token_kind) and EVERY behaviour of the
+    doc-comment parser (its operations are carried by the bumps):
+
+    mark_level_exact — if every operation respected the client discipline ([p_disc]: kinds are never None; set_kind,
+    undo and complete address a start that has not been erased; init once and first; no retag to None/TkEof), the
+    parser's [mark_level] equals the bracket depth of the event list (non-erased starts minus ends).  This is the
+    accounting that error recovery relies on ([for _ in 0..(current_level - level) { push_node_end }]); it was false
+    before the repair of [Marker::undo] / empty [complete]. *)
+Theorem mark_level_exact : forall (toks : list leaf) (doc : bool) (ops : list op) (st : pst),
+  exec_ops false (pst_new toks doc) ops = Some st -> p_disc st = true ->
+  snd (p_m st) = depth (fst (p_m st)).
+Proof. exact PumpProofs.mark_level_exact. Qed.
+
+(** markers_balanced, the part that is proved: when such a client ends with mark level 0, live starts and ends
+    balance.  (FULL statement, not proved: every prefix of the event list has at least as many live starts as ends,
+    i.e. [prefix_ok (fst (p_m st)) 0 = true]; it needs a matching discipline between raw [push_node_end] calls and
+    the markers they close, which the model does not track.  It is evaluated on every recorded real trace.) *)
+Theorem markers_balanced_partial : forall (toks : list leaf) (doc : bool) (ops : list op) (st : pst),
+  exec_ops false (pst_new toks doc) ops = Some st -> p_disc st = true ->
+  snd (p_m st) = 0%Z -> depth (fst (p_m st)) = 0%Z.
+Proof. intros toks doc ops st H Hd H0. rewrite <- (PumpProofs.mark_level_exact toks doc ops st H Hd). exact H0. Qed.
+
+(** pump_emits_all — if the lexer's tokens tile [0,total), none has a kind the pump drops (None, TkEof), the client
+    respected the discipline and every doc-parser run re-emitted a tiling of the range it was handed ([p_doc_ok], the
+    obligation of the un-modelled LuaDocParser), then at every moment the EatToken events tile exactly the range of
+    the tokens before the current one; once the current token is Eof they tile [0,total). *)
+Theorem pump_emits_all : forall (toks : list leaf) (total : N) (doc : bool) (ops : list op) (st : pst),
+  tiles toks 0 total -> alive toks ->
+  exec_ops false (pst_new toks doc) ops = Some st -> p_disc st = true -> p_doc_ok st = true ->
+  exists a, tiles (firstn (p_index st) (p_tokens st)) 0 a /\ tiles (tokens_of (fst (p_m st))) 0 a /\
+            (p_inited st = true -> p_current st = TK_TkEof -> a = total).
+Proof. exact PumpProofs.pump_emits_all. Qed.
+
+(** C01_main — the composition: any contract-respecting lexer step, any disciplined client that stops at Eof with
+    the doc obligation met, any run of the builder that does not panic: the leaves of the tree tile the input and,
+    if every token's text slice exists, the tree's text is the input. *)
+Theorem C01_main :
+  forall (S : Type) (step : S -> reader -> tkind * S * reader) (Inv : S -> reader -> Prop),
+    step_contract S step Inv (fun k => dead_kind k = false) ->
+    forall (t : text) (normal : bool) (st0 : S),
+      (forall r cs, moved (reader_new t) r cs -> is_eof r = false -> Inv st0 r) ->
+      let toks := fst (fst (tokenize S step normal st0 t)) in
+      forall (doc : bool) (ops : list op) (st : pst) (tr : tree),
+        exec_ops false (pst_new toks doc) ops = Some st ->
+        p_disc st = true -> p_doc_ok st = true -> p_inited st = true -> p_current st = TK_TkEof ->
+        run (fst (p_m st)) = Some tr ->
+        tiles (leaves tr) 0 (bytes t) /\
+        (forall x, tree_text t tr = Some x -> x = t).
+Proof. exact MainProofs.C01_main. Qed.
+
+(** C01_lua — C01_main with the transcribed Lua lexer plugged in: no hypothesis on the lexer is left *)
+Theorem C01_lua : forall (feats : list N) (uni_alpha uni_alnum : cp -> bool) (t : text)
+                         (doc : bool) (ops : list op) (st : pst) (tr : tree),
+  exec_ops false (pst_new (lua_tokenize feats uni_alpha uni_alnum t) doc) ops = Some st ->
+  p_disc st = true -> p_doc_ok st = true -> p_inited st = true -> p_current st = TK_TkEof ->
+  run (fst (p_m st)) = Some tr ->
+  tiles (leaves tr) 0 (bytes t) /\ (forall x, tree_text t tr = Some x -> x = t).
+Proof.
+  intros feats ua un t doc ops st tr.
+  apply (MainProofs.C01_main lstate (lua_step feats ua un) lua_inv (LuaLexerProofs.lua_lexer_contract feats ua un) t true LNormal).
+  intros; reflexivity.
+Qed.
+
+(** non-vacuity of the lexer theorems: a NUL in the middle of the text is an ordinary (unknown) character and the
+    tokens after it are still produced; ["--[=[x"] is an unterminated long comment that runs to the end *)
+Example lexer_example :
+  lua_tokenize (level_features L_Lua54) (fun _ => false) (fun _ => false) [97; 0; 98; 10; 45; 45; 91; 61; 91; 120]
+  = [(TK_TkName, (0, 1)); (TK_TkUnknown, (1, 1)); (TK_TkName, (2, 1)); (TK_TkEndOfLine, (3, 1)); (TK_TkLongComment, (4, 6))].
+Proof. vm_compute. reflexivity. Qed.
+
+(** non-vacuity of the pump theorems: the operation sequence of [parse_chunk] on the tokens of ["a -- c\nb"]
+    (doc off): init, mark, bumps; the hypotheses hold and the events tile [0,8). *)
+Example pump_example :
+  let toks := [(TK_TkName, (0, 1)); (TK_TkWhitespace, (1, 1)); (TK_TkShortComment, (2, 4)); (TK_TkEndOfLine, (6, 1)); (TK_TkName, (7, 1))] in
+  match exec_ops false (pst_new toks false) [OMark SK_Block; OInit []; OMark SK_NameExpr; OBump []; OComplete 1%nat; OBump []; OComplete 0%nat] with
+  | Some st => p_disc st = true /\ p_doc_ok st = true /\ p_current st = TK_TkEof /\ snd (p_m st) = 0%Z /\
+               tokens_of (fst (p_m st)) = toks /\ prefix_ok (fst (p_m st)) 0 = true
+  | None => False
+  end.
+Proof. vm_compute. repeat split. Qed.
 
 (** non-vacuity: an unbalanced event list (the Chunk is closed early, two tokens follow) builds a tree with
     all three tokens; a balanced one with a [precede] link builds the expected nesting. *)
